@@ -86,5 +86,10 @@ Inv_RowsKept == phase # "raw" =>
   LET RECURSIVE sm(_)
       sm(i) == IF i > Len(gs) THEN 0 ELSE gs[i].n + sm(i + 1)
   IN  (Mode = "quanti" => sm(1) = Len(df))
+(* C11: the quantile search only sees the order of the values: re-encoding the values by a strictly *)
+(* increasing map re-encodes the boundaries the same way                                          *)
+MonoMaps == { [v \in Vals |-> 2 * v + 3], [v \in Vals |-> v * v], [v \in Vals |-> IF v <= 2 THEN v ELSE 10 * v + (v % 2)] }
+Inv_C11_Quantiles == (phase # "raw" /\ Mode = "quanti") =>
+  \A phi \in MonoMaps : Quantiles([i \in DOMAIN df |-> phi[df[i]]], mf, lendf) = {phi[b] : b \in bounds}
 Termination == <>(phase = "done")
 =============================================================================
